@@ -605,6 +605,15 @@ func TestC16(t *testing.T) {
 					vs.add("C16.strict.unknown-key-accepted", "", "document with undefined key %s (misspelling of %s) is accepted", strings.Join(segs, "."), kp)
 					report(map[string]any{"text": string(b)}, vs)
 				}
+				// the same document in JSON syntax (which is YAML too) and in flow style
+				if jb, err := json.Marshal(doc); err == nil {
+					if _, err := parseText(string(jb), noEnv); err == nil {
+						var vs vlist
+						vs.add("C16.strict.unknown-key-accepted", "", "JSON-syntax document with undefined key %s (misspelling of %s) is accepted", strings.Join(segs, "."), kp)
+						report(map[string]any{"text": string(jb)}, vs)
+					}
+					nMut++
+				}
 			}
 		}
 	}
